@@ -67,6 +67,13 @@ def classify(c):
     return dict(layer="correspondence", what=f"{op}: model and code differ", input=None)
 
 
+def generate(ctx=None):
+    """Translator: coq/Gen/Skeleton.v (call and access facts with must-hold locksets) from
+    /repo's current source; the property file carries the obligation Cxx_skeleton_assumptions."""
+    from checks import c10
+    return c10.generate(ctx)
+
+
 def setup():
     L.go_build("c03")
     L.ocaml_build("c03")
@@ -133,6 +140,8 @@ def correspondence(ctx):
 
 def search(ctx, violations):
     """A layer broke without a concrete input: more and longer scenarios with another seed."""
+    from checks import c10
+    c10.annotate_skeleton_failure(ctx, violations, "SkeletonReader", "reader_assumptions", "Model/Lifecycle.v / GroupReader.v / ReaderModel.v", "reader.go")
     ctx.seed += 1000
     ctx.tier = "thorough"
     ctx.thorough = True
